@@ -137,15 +137,20 @@ def run_recipe(recipe, args):
     outs = []
     ok_all = None
     cond = None
-    for b in (dev, rel):
+    # the dev profile is the one Kani models (debug assertions / overflow checks on); the release run is
+    # recorded as well: a counterexample counts as reproduced when the dev build reproduces it
+    for name, b in (("dev", dev), ("release", rel)):
         p = subprocess.run([b, recipe], input=json.dumps(args), stdout=subprocess.PIPE, stderr=subprocess.STDOUT, text=True,
                            timeout=1800)
-        outs.append(p.stdout)
+        outs.append("[%s profile]\n%s" % (name, p.stdout))
         m = re.search(r"^CONDITION (\S+)", p.stdout, re.M)
-        if m:
+        if m and cond is None:
             cond = m.group(1)
         ok = "REPRODUCED" in p.stdout and "NOT-REPRODUCED" not in p.stdout
-        ok_all = ok if ok_all is None else (ok_all and ok)
+        if name == "dev":
+            ok_all = ok
+        else:
+            outs.append("release profile reproduces: %s" % ok)
     return bool(ok_all), "\n".join(outs), cond
 
 
